@@ -1,0 +1,18 @@
+//go:build verif
+
+package async
+
+import "io"
+
+// VerifReadWriter is the read-writer as seen by external verification tooling.
+type VerifReadWriter interface {
+	io.Reader
+	io.Writer
+	io.Closer
+	SetError(err error)
+	Add(delta int)
+	Done()
+}
+
+// VerifNewReadWriter returns a fresh read-writer.
+func VerifNewReadWriter() VerifReadWriter { return NewReadWriter() }
